@@ -309,7 +309,31 @@ def rule_G2(ctx, floor=60):
                 rel_l = released_names(fn)
                 escaped = any(isinstance(x, ast.Return) and x.value is not None and any(isinstance(y, ast.Name) and y.id == lst for y in ast.walk(x.value)) for x in walk_no_nested(fn)) or \
                     any(isinstance(x, ast.Assign) and isinstance(x.targets[0], ast.Attribute) and any(isinstance(y, ast.Name) and y.id == lst for y in ast.walk(x.value)) for x in walk_no_nested(fn))
-                if (lst + '[*]') not in rel_l and not escaped:
+                # the list may flow into another local list first:  both = caught + saved / both = tuple(xs) / ys = xs
+                flows, grew = {lst}, True
+                while grew:
+                    grew = False
+                    for x in walk_no_nested(fn):
+                        if isinstance(x, ast.Assign) and len(x.targets) == 1 and isinstance(x.targets[0], ast.Name) and x.targets[0].id not in flows:
+                            v = x.value
+                            parts = []
+                            todo = [v]
+                            while todo:
+                                y = todo.pop()
+                                if isinstance(y, ast.BinOp) and isinstance(y.op, ast.Add):
+                                    todo += [y.left, y.right]
+                                elif isinstance(y, ast.Call) and isinstance(y.func, ast.Name) and y.func.id in ('tuple', 'list', 'reversed', 'sorted') and len(y.args) == 1:
+                                    todo.append(y.args[0])
+                                elif isinstance(y, ast.Starred):
+                                    todo.append(y.value)
+                                elif isinstance(y, (ast.List, ast.Tuple)):
+                                    todo += [e for e in y.elts if isinstance(e, ast.Starred)]
+                                else:
+                                    parts.append(y)
+                            if any(isinstance(y, ast.Name) and y.id in flows for y in parts):
+                                flows.add(x.targets[0].id)
+                                grew = True
+                if not any((nm + '[*]') in rel_l for nm in flows) and not escaped:
                     r.violate(key + ':never-released', m.rel, n.lineno, 'the temps allocated into the list %s are never released element-wise (for t in %s: release_temp(t))' % (lst, lst))
         allocs = [(n, _alloc_target(n)) for n in walk_no_nested(fn) if _alloc_target(n)]
         if not allocs:
